@@ -373,6 +373,16 @@ def rr_rules(ctx, A):
     if vb:
         args = [rr.expr_of_operand(a) for a in vb[0]['term']['args']]
         fb = [a for a in args if is_call(a, 'Iterator::find')]
+        if not fb:
+            # find(..) followed by a pure projection of the found pair: find(|(_, r)| r.is_base).map(|(_, r)| r)
+            for a in args:
+                a2 = strip(expand(rr, a))
+                if is_call(a2, 'Option::<T>::map') and len(a2[2]) == 2 and is_call(strip(a2[2][0]), 'Iterator::find'):
+                    pf_ = predicate_fn(P, a2[2][1])
+                    ex_ = [strip(x_['expr']) for x_ in pf_.exits()] if pf_ is not None else []
+                    proj = len(ex_) == 1 and not pf_.switches() and (ex_[0][0] in ('field', 'arg') and all(y[0] in ('field', 'arg') for y in walk(ex_[0]) if isinstance(y, tuple) and y))
+                    if proj:
+                        fb = [strip(a2[2][0])]
         ok = False
         det = ''
         if fb:
